@@ -8,7 +8,7 @@
       [reserve_std s n] = bank balance of the pool's escrow address in the standard denom,
       [reserve_tok s cp n] = its balance in [cp], [liquidity s n] = bank supply of "lpt-n". *)
 From Irismod Require Import Coinswap.Model Coinswap.Check Coinswap.ProofsArith Coinswap.ProofsSpec
-  Coinswap.Proofs Coinswap.ProofsValue Coinswap.ProofsSound.
+  Coinswap.Proofs Coinswap.ProofsValue Coinswap.ProofsSound Coinswap.ProofsEncode.
 
 Local Open Scope Z_scope.
 
@@ -177,6 +177,26 @@ Theorem check_predicate_holds_on_failed_step :
     c01_step (par s) m o (world_of s) (world_of s) = 0.
 Proof. exact c01_step_model_fail. Qed.
 Print Assumptions check_predicate_holds_on_failed_step.
+
+(** ** [model_passes_check]: the checker itself, on the driver's encoding of a model history
+
+    [encode_steps U D s0 ms] is what the driver would print for the history [ms] if the implementation
+    behaved as the model: per step the outcome code, the response, the signed differences of every
+    changed ledger entry of the observed universe [U] and of every changed supply among [D], the
+    registry and the parameters.  [check_case_C01] (the function evaluated by [vm_compute] on every
+    implementation trace: it rebuilds the observed worlds from the differences with [next_world],
+    compares them with the model, and evaluates the property's predicate on them) answers
+    (-1, -1, 0) — no divergence, no violation — for every genesis, every history of messages signed by
+    users or the authority, and every universe that covers what the history touches. *)
+Theorem model_passes_check :
+  forall (p : params) (start : Z) (gl : list ((Z * Z) * Z)) (gs : list (Z * Z))
+         (U : list (Z * Z)) (D : list Z) (ms : list msg),
+    let s0 := init_state (case_of p start gl gs []) in
+    NoDup U -> NoDup D -> covered U D s0 ms ->
+    Inv s0 -> Forall msg_ok ms -> p_cdenom p <= 1000 ->
+    check_case_C01 (case_of p start gl gs (encode_steps U D s0 ms)) = (-1, -1, 0).
+Proof. exact model_passes_check_C01. Qed.
+Print Assumptions model_passes_check.
 
 (** ** the hypotheses are satisfiable, on a history with non-trivial residues: fee 0.3 %, a pool
     created 1000007 : 3000001, a sell, a buy, a two-sided add, a one-sided add, a donation,
